@@ -70,7 +70,14 @@ def prop_filter(ctx, case):
         blob = files.build_v3(case['spec'])
         logs_present = True
     base = guard(lambda: list(PyKdebugParser().kevents(BudgetReader(blob))))
-    got = guard(lambda: list(new_parser(cfg).kevents(BudgetReader(blob))))
+    p_ev = new_parser(cfg)
+    if case.get('traces_first'):
+        # an earlier traces request on the same object (it reads helper classes internally) must not change the listing
+        try:
+            sum(1 for _ in p_ev.traces(BudgetReader(blob)))
+        except Exception:  # noqa: the records of these dumps carry arbitrary argument bytes, outside the decoders' domains
+            pass
+    got = guard(lambda: list(p_ev.kevents(BudgetReader(blob))))
     if any(not isinstance(e, Kevent) for e in base + got):
         raise Violation('log-in-event-listing', 'the event listing contains a non-event item')
     exp = [e for e in base if pred_event(e, cfg)]
@@ -78,9 +85,13 @@ def prop_filter(ctx, case):
         raise Violation('event-filter', f'config {cfg}: {len(got)} events, expected {len(exp)} of {len(base)}; '
                                         f'first difference at {next((i for i in range(min(len(got), len(exp))) if got[i] != exp[i]), min(len(got), len(exp)))}')
     kept, dropped = len(exp), len(base) - len(exp)
-    cls = ['v%d' % case['version'], 'tid-filter' if cfg['tid'] is not None else 'no-tid-filter',
+    cls = ['v%d' % case['version'], *(['after-traces-request'] if case.get('traces_first') else []), 'tid-filter' if cfg['tid'] is not None else 'no-tid-filter',
            'class-filter' if cfg['classes'] else 'no-class-filter', 'subclass-filter' if cfg['subclasses'] else 'no-subclass-filter']
     nt = kept > 0 and dropped > 0
+    if not logs_present:
+        lv2 = guard(lambda: list(new_parser(cfg).os_log_events(BudgetReader(blob))))
+        if lv2:
+            raise Violation('event-in-log-listing', f'the log listing of a version-2 dump (which has no logs) holds {len(lv2)} items: {type(lv2[0]).__name__}')
     if logs_present:
         lbase = guard(lambda: list(PyKdebugParser().os_log_events(BudgetReader(blob))))
         if any(not isinstance(e, OsLogEvent) for e in lbase):
@@ -112,9 +123,9 @@ PROPS = {'filter': prop_filter}
 
 def run(ctx):
     recs = st.one_of(st.lists(pooled_record(), max_size=40), st.lists(pooled_record(), min_size=4, max_size=30))
-    v2 = st.fixed_dictionaries({'version': st.just(2), 'config': config(),
+    v2 = st.fixed_dictionaries({'version': st.just(2), 'config': config(), 'traces_first': st.booleans(),
                                 'spec': st.fixed_dictionaries({'tm': files.threadmap(6), 'pad': st.sampled_from([0, 8]), 'recs': recs})})
-    v3 = st.fixed_dictionaries({'version': st.just(3), 'config': config(),
+    v3 = st.fixed_dictionaries({'version': st.just(3), 'config': config(), 'traces_first': st.booleans(),
                                 'spec': files.v3_spec(max_events=40, max_n=6, tids=TIDS, records_strategy=recs, log_copies=4, force_logs=True)})
     ctx.run_given('filter', v2, prop_filter, ctx.n(250, 1500))
     ctx.run_given('filter', v3, prop_filter, ctx.n(350, 2000))
